@@ -436,6 +436,7 @@ var debImpl = map[string]core.Adapter{
 		for i := 0; i < 4; i++ {
 			again, d := loadDebDump(data)
 			if d != nil {
+				debDataDigest(d) // reading the payload to its end (or to its first error) does not panic either
 				d.Close()
 			}
 			if again != first {
@@ -789,6 +790,22 @@ func emitDebModel(g *core.G, m debModel) {
 // C15: .deb loading on hostile archives (control/data stored or gzip, per the property's carve-out)
 func streamDebfuzz(g *core.G) {
 	r := g.R
+	// members that claim a compression they do not have, every extension x every kind of content:
+	// the decompressor's constructor (or its first read) fails - an error, never a panic
+	for _, ext := range []string{".xz", ".gz", ".zst", ".bz2", ".lzma"} {
+		for _, junk := range []string{"", "not compressed at all", "\xfd7zXZ\x00garbage", "\x1f\x8b\x08garbage", "\x28\xb5\x2f\xfdgarbage", "BZh9garbage", "\x5d\x00\x00"} {
+			for k := 1; k <= 2; k++ {
+				m := genDebModel(r)
+				m.CtlExt, m.DataExt = "", ""
+				ms := m.members()
+				ms[k].Name = []string{"control.tar", "data.tar"}[k-1] + ext
+				ms[k].Data = []byte(junk)
+				data := buildAr(ms)
+				emitDeb(g, data)
+				g.Emit("law-debsafe", core.Hex(string(data)))
+			}
+		}
+	}
 	n := g.N(700, 30000)
 	for i := 0; i < n; i++ {
 		m := genDebModel(r)
